@@ -395,27 +395,34 @@ class CallGraph:
                 supplied.add(params[i])
         for kw in call.keywords:
             supplied.add(kw.arg)
-        chain = None
-        for st in fac.node.body:
-            if isinstance(st, ast.If) and isinstance(st.test, ast.Name) and st.test.id in params:
-                chain = st
-                break
-        if chain is None:
+        # the branches `if <param>: ...` of the factory, in order: an if/elif chain, or a sequence of guarded blocks
+        # (possibly inside a one-shot `while True:`)
+        branches: List[Tuple[str, List[ast.stmt]]] = []
+
+        def collect(stmts):
+            for st in stmts:
+                if isinstance(st, ast.While) and isinstance(st.test, ast.Constant) and st.test.value is True:
+                    collect(st.body)
+                node = st
+                while isinstance(node, ast.If) and isinstance(node.test, ast.Name) and node.test.id in params:
+                    branches.append((node.test.id, node.body))
+                    if len(node.orelse) == 1 and isinstance(node.orelse[0], ast.If):
+                        node = node.orelse[0]
+                    else:
+                        break
+
+        collect(fac.node.body)
+        if not branches:
             return [fac]
-        node = chain
-        while isinstance(node, ast.If) and isinstance(node.test, ast.Name) and node.test.id in params:
-            if node.test.id in supplied:
+        for pname, body in branches:
+            if pname in supplied:
                 out: List[FunctionInfo] = []
-                for n in ast.walk(ast.Module(body=node.body, type_ignores=[])):
+                for n in ast.walk(ast.Module(body=body, type_ignores=[])):
                     if isinstance(n, ast.Call):
                         r = self.p.resolve_expr(fac.module, n.func, fac)
                         if r.kind == "func" and r.func is not None and r.func not in out:
                             out.append(r.func)
                 return out or [fac]
-            if len(node.orelse) == 1 and isinstance(node.orelse[0], ast.If):
-                node = node.orelse[0]
-            else:
-                break
         if not supplied:
             return []  # Sid(): the empty instance, built by the factory's fall-through
         return [fac]
